@@ -34,6 +34,7 @@ type jQuery struct {
 	OnInWhere []bool   // the equality is written in WHERE instead of ON
 	Where  []jLeaf
 	Sel    [][2]string // tbl, col; nil = *
+	Extra  [][4]string // further column = column conditions between the tables, written in WHERE
 }
 
 func (q *jQuery) SQL() string {
@@ -59,6 +60,9 @@ func (q *jQuery) SQL() string {
 			from += fmt.Sprintf(" JOIN %s ON %s.%s = %s.%s", q.Tables[i], on[0], on[1], on[2], on[3])
 		}
 	}
+	for _, e := range q.Extra {
+		wh = append(wh, fmt.Sprintf("%s.%s = %s.%s", e[0], e[1], e[2], e[3]))
+	}
 	for _, l := range q.Where {
 		wh = append(wh, l.SQL())
 	}
@@ -76,7 +80,7 @@ func (q *jQuery) eval(tabs map[string]*jTable) Rows {
 	rec = func(i int, cur map[string][]any) {
 		if i == len(q.Tables) {
 			get := func(t, c string) any { return cur[t][tabs[t].Def.ColIdx(c)] }
-			for _, on := range q.On {
+			for _, on := range append(append([][4]string{}, q.On...), q.Extra...) {
 				a, b := get(on[0], on[1]), get(on[2], on[3])
 				if a == nil || b == nil {
 					return
@@ -337,6 +341,17 @@ func c11Queries(tables []string, thorough bool) []*jQuery {
 				for _, s := range use {
 					qs = append(qs, &jQuery{Tables: tables, On: [][4]string{on}, OnInWhere: []bool{false}, Where: wh, Sel: s})
 				}
+				if wi < 3 {
+					// a second equality between the same two tables, written in WHERE (the ON clause takes one)
+					l2, r2 := defs[on[0]].Cols[1].Name, defs[on[2]].Cols[1].Name
+					if on[1] == l2 {
+						l2 = defs[on[0]].Cols[0].Name
+					}
+					if on[3] == r2 {
+						r2 = defs[on[2]].Cols[0].Name
+					}
+					qs = append(qs, &jQuery{Tables: tables, On: [][4]string{on}, OnInWhere: []bool{false}, Where: wh, Sel: sels[wi%len(sels)], Extra: [][4]string{{on[0], l2, on[2], r2}}})
+				}
 				if wi == 0 {
 					// the same equality written in WHERE (cross join + filter)
 					qs = append(qs, &jQuery{Tables: tables, On: [][4]string{on}, OnInWhere: []bool{true}, Sel: nil})
@@ -542,6 +557,9 @@ func c11PlanKind(s string) string {
 
 func c11Shape(q *jQuery) string {
 	s := fmt.Sprintf("%dtables/where%d", len(q.Tables), len(q.Where))
+	if len(q.Extra) > 0 {
+		s += "/second-equality"
+	}
 	if q.Sel == nil {
 		return s + "/star"
 	}
